@@ -679,6 +679,14 @@ func (c *FnCtx) trCall(e *Expr, env *Env) (Term, types.Type) {
 			c.specFail("%v", err)
 		}
 		return c.unbox(a, ty), ty
+	case "guarded":
+		// guarded(): only in "before send:/recv:<chan> assert" - the operation is an arm of a select that
+		// has a default case or an arm receiving from a Done() channel (decided from the SSA form)
+		tv, ok := env.vars["$guarded"]
+		if !ok {
+			c.specFail("guarded() is only meaningful in a hint at a channel operation")
+		}
+		return tv.T, tBool
 	case "boxOf":
 		// boxOf(x): x as an interface value (what the code gets from a conversion to error / any)
 		a, at := arg(0)
